@@ -373,6 +373,121 @@ theorem steps_reverse (L : JLaws F) (cfg : Cfg F) (s : Scheme F) (hp : Palin s) 
       rw [steps_succ_right, ih st1 st' h, Option.bind_some]
       exact step_reverse L cfg s hp dt st st1 h1
 
+/-! ### the recalculation flag: an undisturbed run never re-derives the grid state -/
+
+theorem drift_length (c sp sv : F) :
+    ∀ (s s' : List PInt), drift c sp sv s = some s' → s'.length = s.length
+  | [], s', h => by simp only [drift] at h; injection h with h; subst h; rfl
+  | p :: r, s', h => by
+    unfold drift at h
+    split at h
+    · rename_i p' r' hp hr
+      injection h with h; subst h
+      simp only [List.length_cons, drift_length c sp sv r r' hr]
+    · exact absurd h (by simp)
+
+theorem kickL_length (b sv : F) :
+    ∀ (s : List PInt) (A : List (V3 F)) (s' : List PInt), kickL b sv s A = some s' → s'.length = s.length
+  | [], [], s', h => by simp only [kickL] at h; injection h with h; subst h; rfl
+  | p :: r, a :: ar, s', h => by
+    unfold kickL at h
+    split at h
+    · rename_i p' r' hp hr
+      injection h with h; subst h
+      simp only [List.length_cons, kickL_length b sv r ar r' hr]
+    · exact absurd h (by simp)
+  | [], _ :: _, s', h => by simp [kickL] at h
+  | _ :: _, [], s', h => by simp [kickL] at h
+
+theorem run_length (cfg : Cfg F) (l : List (Op F)) :
+    ∀ (s s' : List PInt), run cfg l s = some s' → s'.length = s.length := by
+  induction l with
+  | nil => intro s s' h; simp only [run] at h; injection h with h; rw [h]
+  | cons op r ih =>
+    intro s s' h
+    simp only [run] at h
+    cases h1 : op.apply cfg s with
+    | none => rw [h1] at h; exact absurd h (by simp)
+    | some s1 =>
+      rw [h1] at h
+      have e1 : s1.length = s.length := by
+        cases op with
+        | drift c => exact drift_length c _ _ s s1 h1
+        | kick b => exact kickL_length b _ s _ s1 h1
+      rw [ih s1 s' h, e1]
+
+theorem step_length (cfg : Cfg F) (s : Scheme F) (dt : F) (st st' : List PInt)
+    (h : step cfg s dt st = some st') : st'.length = st.length := by
+  unfold step at h
+  cases ho : stepOps s dt with
+  | none => rw [ho] at h; exact absurd h (by simp)
+  | some ops => rw [ho] at h; exact run_length cfg ops st st' h
+
+/-- flag clear and `N_allocated == N`: `part1` does not touch the grid state -/
+theorem part1Sync_clean (sp sv : F) (js : JState) (hr : js.recalc = false)
+    (hn : js.nAllocated = js.pInt.length) :
+    part1Sync sp sv (toDouble sp sv js.pInt) js = some js := by
+  unfold part1Sync
+  simp [hr, hn, toDouble]
+
+/-- an undisturbed run of the full step (flag, `N_allocated`, doubles) is the run of `step` on the
+    grid state; the flag stays clear -/
+theorem stepsFull_eq (cfg : Cfg F) (s : Scheme F) (dt : F) (n : Nat) :
+    ∀ (js : JState), js.recalc = false → js.nAllocated = js.pInt.length →
+      stepsFull cfg s dt n js = (steps cfg s dt n js.pInt).map (fun st => { js with pInt := st }) := by
+  induction n with
+  | zero => intro js _ _; rfl
+  | succ n ih =>
+    intro js hr hn
+    unfold stepsFull stepFull
+    rw [part1Sync_clean cfg.scalePos cfg.scaleVel js hr hn]
+    simp only [steps]
+    cases h1 : step cfg s dt js.pInt with
+    | none => rfl
+    | some st1 =>
+      simp only []
+      have hl := step_length cfg s dt js.pInt st1 h1
+      rw [ih { js with pInt := st1 } hr (by simp only []; rw [hl]; exact hn)]
+
+theorem steps_length (cfg : Cfg F) (s : Scheme F) (dt : F) (n : Nat) :
+    ∀ (st st' : List PInt), steps cfg s dt n st = some st' → st'.length = st.length := by
+  induction n with
+  | zero => intro st st' h; simp only [steps] at h; injection h with h; rw [h]
+  | succ n ih =>
+    intro st st' h
+    rw [steps] at h
+    cases h1 : step cfg s dt st with
+    | none => rw [h1] at h; exact absurd h (by simp)
+    | some st1 =>
+      rw [h1] at h
+      dsimp only at h
+      rw [ih st1 st' h, step_length cfg s dt st st1 h1]
+
+theorem stepsFull_reverse (L : JLaws F) (cfg : Cfg F) (s : Scheme F) (hp : Palin s) (dt : F) (n : Nat)
+    (js js' : JState) (hr : js.recalc = false) (hn : js.nAllocated = js.pInt.length)
+    (h : stepsFull cfg s dt n js = some js') :
+    stepsFull cfg s (neg dt) n js' = some js ∧ js'.recalc = false ∧
+      js'.nAllocated = js'.pInt.length := by
+  rw [stepsFull_eq cfg s dt n js hr hn] at h
+  cases h1 : steps cfg s dt n js.pInt with
+  | none => rw [h1] at h; exact absurd h (by simp)
+  | some st' =>
+    rw [h1] at h
+    simp only [Option.map_some] at h
+    injection h with h
+    subst h
+    have hl := steps_length cfg s dt n js.pInt st' h1
+    refine ⟨?_, hr, ?_⟩
+    · have hn' : ({ js with pInt := st' } : JState).nAllocated = ({ js with pInt := st' } : JState).pInt.length := by
+        show js.nAllocated = st'.length
+        rw [hl]; exact hn
+      rw [stepsFull_eq cfg s (neg dt) n { js with pInt := st' } hr hn']
+      show (steps cfg s (neg dt) n st').map _ = _
+      rw [steps_reverse L cfg s hp dt n js.pInt st' h1]
+      rfl
+    · show js.nAllocated = st'.length
+      rw [hl]; exact hn
+
 /-! ### palindromes from the index function alone -/
 
 /-- the scheme a table denotes, its constants read through an arbitrary `f` -/
